@@ -22,6 +22,7 @@ EXPLANATION = (
     "constant, operator or called method is a violation; a restructuring that keeps them is reported as "
     "UNVERIFIED. NOT decided: that the n-th loop lands on the right date for all 28x7x7 month shapes."
     " Also: building nth_of's PendulumException reads no attribute from the bare weekday parameter (a plain int is accepted everywhere else)."
+    " As built: CALENDAR.tabulated runs next/previous/first_of/last_of/nth_of and every helper they reach with the checker's interpreter in the closed calendar world of rules/calstub.py (real dates from the standard library; set/add/start_of('day')/create as primitives) over every month shape, the quarters of a common and a leap year, all weekdays, n past the end of the unit and - for DateTime - skipped / repeated midnights of the instance's day, the target day and its neighbours for both folds: this decides the clause listed as NOT decided above; the shape rules (1)-(4) only decide for code outside the interpreter."
 )
 
 VALIDATE = ["if day_of_week is None:\n    day_of_week = self.day_of_week",
